@@ -303,6 +303,127 @@ def gen_offer_cases(rng, budget):
 GENS = {'C01': gen_swap_cases, 'C06': gen_swap_cases, 'C12': gen_offer_cases}
 
 
+# ---------------------------------------------------------------- C18: text / JSON / width conversions
+def _digits_ok(t):
+    return all(c in '0123456789' for c in t)
+
+
+def text_denotes(s):
+    """Atomics denoted by a decimal text in the accepted grammar (numerals may be empty = 0, see units/math_text.rs), else None."""
+    parts = s.split('.')
+    if len(parts) == 1 and _digits_ok(parts[0]):
+        return (int(parts[0]) if parts[0] else 0) * D
+    if len(parts) == 2 and _digits_ok(parts[0]) and _digits_ok(parts[1]) and len(parts[1]) <= 18:
+        return (int(parts[0]) if parts[0] else 0) * D + (int(parts[1]) if parts[1] else 0) * 10 ** (18 - len(parts[1]))
+    return None
+
+
+def render_dec(a):
+    w, f = divmod(a, D)
+    if f == 0:
+        return str(w)
+    return str(w) + '.' + ('%018d' % f).rstrip('0')
+
+
+def gen_text_cases(rng, budget):
+    ns = big_nums(rng)
+    out = []
+    for a in ns:
+        if a < M256:
+            for op in ('dec_render', 'uint_render', 'dec_json', 'uint_json'):
+                out.append(dict(kind='text', op=op, a=str(a)))
+            out.append(dict(kind='text', op='decimal_from_dec', a=str(a)))
+            out.append(dict(kind='text', op='uint128_from_uint', a=str(a)))
+            out.append(dict(kind='text', op='u128_from_uint', a=str(a)))
+            for s_ in (render_dec(a), str(a), str(a) + '.', '.' + str(a)[:18], '0' * rng.randrange(0, 4) + render_dec(a)):
+                out.append(dict(kind='text', op='dec_parse', s=s_))
+                out.append(dict(kind='text', op='dec_json_parse', s=s_))
+            out.append(dict(kind='text', op='uint_parse', s=str(a)))
+            out.append(dict(kind='text', op='uint_try_from', s='00' + str(a)))
+            out.append(dict(kind='text', op='uint_json_parse', s=str(a)))
+        if a < 2 ** 128:
+            out.append(dict(kind='text', op='dec_from_decimal', a=str(a)))
+            out.append(dict(kind='text', op='uint_from_u128', a=str(a)))
+            out.append(dict(kind='text', op='uint_from_uint128', a=str(a)))
+        if a < 2 ** 64:
+            out.append(dict(kind='text', op='uint_from_u64', a=str(a)))
+    # trailing zeros / short and long fractions / boundaries of the 18-digit rule
+    for _ in range(300):
+        w = rng.choice([0, 1, 7, 10 ** 20, rng.randrange(0, 10 ** 40)])
+        k = rng.randrange(0, 22)
+        f = ''.join(rng.choice('0123456789') for _ in range(k))
+        if rng.random() < 0.4 and k:
+            f = f[:-1] + '0'
+        out.append(dict(kind='text', op='dec_parse', s='%d.%s' % (w, f)))
+        out.append(dict(kind='text', op='dec_render', a=str(w * D + (int(f[:18] or '0') * 10 ** (18 - min(k, 18))))))
+    # malformed texts
+    alphabet = '0123456789..-+ eEx,_'
+    for _ in range(300):
+        t = ''.join(rng.choice(alphabet) for _ in range(rng.randrange(0, 9)))
+        out.append(dict(kind='text', op=rng.choice(['dec_parse', 'dec_json_parse']), s=t))
+        out.append(dict(kind='text', op=rng.choice(['uint_parse', 'uint_try_from', 'uint_json_parse']), s=t))
+    for t in ('', '.', '..', '1..2', '1.2.3', ' 1', '1 ', '+1', '-1', '1e3', '0x10', '١', '1.0000000000000000001', '1.000000000000000000', str(M256), str(M256 - 1), str(M256 // D) + '.0', str(M256 // D + 1)):
+        out.append(dict(kind='text', op='dec_parse', s=t))
+        out.append(dict(kind='text', op='uint_parse', s=t))
+    rng.shuffle(out)
+    return out[:max(budget, 4000)]
+
+
+def viol_C18(case, res):
+    if case.get('kind') != 'text':
+        return None
+    op = case['op']
+    if not res.get('ok'):
+        # an abort is allowed only when the value does not fit
+        if op in ('dec_parse', 'dec_json_parse'):
+            v = text_denotes(case['s'])
+            if v is not None and v < M256 and all(len(p_) < 78 for p_ in case['s'].split('.')):
+                # whole*10^18 may overflow although the parts fit: only complain when everything fits
+                return 'parsing %r aborted although it denotes %d which fits 256 bits' % (case['s'], v)
+            return None
+        if op in ('decimal_from_dec', 'uint128_from_uint', 'u128_from_uint'):
+            return None if int(case['a']) >= 2 ** 128 else '%s aborted on %s which fits 128 bits' % (op, case['a'])
+        return '%s aborted: %s' % (op, res.get('panic', '')[:100])
+    o = res['out']
+    if op in ('dec_parse', 'dec_json_parse'):
+        v = text_denotes(case['s'])
+        if 'ok' in o:
+            if v is None:
+                return 'text %r was accepted (as %s) but denotes no number in the grammar' % (case['s'], o['ok'])
+            if int(o['ok']) != v:
+                return 'text %r parsed to %s atomics, it denotes %d' % (case['s'], o['ok'], v)
+        elif v is not None and v < M256:
+            return 'text %r denotes %d but was rejected' % (case['s'], v)
+    elif op in ('uint_parse', 'uint_try_from', 'uint_json_parse'):
+        s_ = case['s']
+        v = (int(s_) if s_ else 0) if _digits_ok(s_) else None
+        if 'ok' in o:
+            if v is None or int(o['ok']) != v:
+                return 'integer text %r parsed to %s' % (s_, o['ok'])
+        elif v is not None and v < M256:
+            return 'integer text %r denotes %d but was rejected' % (s_, v)
+    elif op == 'dec_render':
+        if o['text'] != render_dec(int(case['a'])):
+            return 'Decimal256 of %s atomics rendered as %r, canonical numeral is %r' % (case['a'], o['text'], render_dec(int(case['a'])))
+    elif op == 'uint_render':
+        if o['text'] != case['a'] or o['string_from'] != case['a']:
+            return 'Uint256 %s rendered as %r / %r' % (case['a'], o['text'], o['string_from'])
+    elif op == 'dec_json':
+        if o['json'] != '"%s"' % render_dec(int(case['a'])) or o['back'] != case['a']:
+            return 'Decimal256 %s atomics through JSON: %r -> %r' % (case['a'], o['json'], o['back'])
+    elif op == 'uint_json':
+        if o['json'] != '"%s"' % case['a'] or o['back'] != case['a']:
+            return 'Uint256 %s through JSON: %r -> %r' % (case['a'], o['json'], o['back'])
+    elif op in ('dec_from_decimal', 'decimal_from_dec', 'uint128_from_uint', 'u128_from_uint', 'uint_from_u128', 'uint_from_uint128', 'uint_from_u64'):
+        if o.get('ok') != case['a']:
+            return 'width conversion %s of %s gave %s' % (op, case['a'], o.get('ok'))
+    return None
+
+
+PREDS['C18'] = viol_C18
+GENS['C18'] = gen_text_cases
+
+
 SCENARIO_PROPS = ('C01', 'C02', 'C03', 'C04', 'C05', 'C06', 'C07', 'C09', 'C12', 'C14', 'C15', 'C20')
 
 
